@@ -281,7 +281,9 @@ def given_run(ctx: Ctx, strategy, body: Callable, *, max_examples: int, tag: str
     def test(case):
         if ctx._target_sig is None:
             if ctx.out_of_time():
-                raise BudgetExceeded
+                # do not raise: Hypothesis would take the exception for a failure and spend minutes
+                # shrinking it; the remaining examples are generated and skipped
+                return
         elif ctx._shrink_until is not None and time.time() > ctx._shrink_until:
             return  # shrink budget used up: let the shrinker finish with what it has
         ctx.gen()
